@@ -12,7 +12,7 @@ E == Ev[l]
 IsEvent(k) == HasEv /\ E.ev = k /\ E.t = now /\ l' = l + 1 /\ UNCHANGED tid
 
 TInit == /\ tid \in 1..Len(Traces) /\ l = 1
-         /\ now = 0 /\ socks = << >> /\ cur = 0 /\ sem = 0 /\ semQ = << >>
+         /\ now = 0 /\ socks = << >> /\ cur = 0 /\ sem = {} /\ semQ = << >>
          /\ reqs = [r \in Reqs |-> IdleReq] /\ evLog = << >> /\ unsol = 0 /\ wantUp = TRUE
 
 Dead(s) == s \in Socks /\ socks[s].st = "dead"
